@@ -224,9 +224,9 @@ theorem isUpstreamChar_of_ident {c : Char} (h : isIdentChar c = true) : isUpstre
 
 theorem colon_not_ident : isIdentChar ':' = false := by decide
 
-/-- (Since fix 3b0cae0 the version text handed to `Version::from_str` is `IDENT` or `IDENT:IDENT`; the
-    second case is `Version.parse_epoch_ident` / `Version.parse_written` in Lemmas/RelAccessField.lean:
-    it fails exactly for an all-digit first token >= 2^32.)
+/-- (Since fixes 3b0cae0, 4ba50b0 the version text handed to `Version::from_str` is `IDENT` or
+    `IDENT(:IDENT)+`; the second case is `Version.parse_epoch_idents` / `Version.parse_written` in
+    Lemmas/RelAccessField.lean: it fails exactly for an all-digit first token >= 2^32.)
     An IDENT token of the lexer (non-empty, identifier characters only) is always a valid
     `debversion::Version` without epoch, and `Display` gives the token text back: the second
     `unwrap()` of `Relation::version()` cannot fail on a tree built by the parser -/
